@@ -306,6 +306,25 @@ PROPS = {
                   'frame sequence numbers are not compared (they depend on the number of fdAT chunks; continuity is C12)',
                   'with sRGB set, gamma/chromaticities other than the substitutes and ICC profiles are not written (documented on Encoder::set_source_srgb); the accessors then report the substitutes'],
  },
+ 'C06': {
+  'level_text': 'PARTIAL. Coq theorem (closed under the global context): the allocation ledger of the stream-machine model - for every option set, limit L >= 0, input and delivery schedule, in every reachable state the budget stays in [0, L], '
+                'the capacity of the chunk body buffer stays in [32 KiB, L + 32 KiB] and the buffer never exceeds it, the accounted metadata copies (PLTE, tRNS, sBIT, ICC profile, every text field) total at most L, and metadata + buffer growth + '
+                'remaining budget <= L; none of the bounds mentions declared dimensions, chunk lengths, chunk counts or inflated sizes. The model\'s budget is compared with Limits::bytes of the real decoder (hook) on every run. Real heap use (Vec growth, '
+                'inflater window, unfiltering and row buffers, fdeflate tables, String conversion) is a runtime fact no Gallina model exhibits: it is measured by a counting global allocator on hostile inputs and must stay below 128*L + 2 MiB.',
+  'level_note': 'Trusted: Coq kernel; hand model Model/Stream.v tied by differential execution (events: C04/C10/C11/C16; budget: here); counting allocator harness/src/alloc.rs (requested sizes, not allocator slack); the constants 128 and 2 MiB are fixed in '
+                'harness/src/c06.rs with their derivation (minimal tEXt chunk: <= 72.5 held bytes per accounted byte; measured 28-31). Not modelled: zlib.rs out_buffer, unfiltering_buffer.rs, Reader scratch buffers, text_metadata decompression (C20).',
+  'gen_items': [],
+  'model_name': 'Model/Stream.v budget / c_cap / reserve / reserve_current_chunk (l0_budget)',
+  'rule': 'cases = (a) 260 (1500) small valid / ancillary-rich / mutated files x limits {0,5,40,200,1000,32768,40000,64 MiB} x options x delivery schedules: remaining Limits::bytes (hook) vs the model\'s budget; (b) hostile scenarios - IDAT bombs (60 MB / 400 MB '
+          'behind a tiny image), big real images, headers up to (2^31-1)^2 x RGBA16 x interlace, chunk length fields 0x40000000..0xffffffff for 12 chunk types, 60k-600k ancillary chunks of 7 kinds incl. minimal text chunks, iCCP/zTXt/iTXt deflate bombs, '
+          '2-5 MB plain chunks, APNGs with large frames and with bombs behind frames, random valid files - x L in {64 KiB, 256 KiB, 1 MiB, 16 MiB, 64 MiB} (6 limits thorough) x 6 decoding paths (read_info, next_frame with caller buffer, next_row, '
+          'next_interlaced_row, next_frame_info skipping, finish) x 5 transformations (rotating; all for image scenarios in the thorough tier): peak live heap attributable to the library (caller buffers subtracted) <= 128*L + 2 MiB, no panic. '
+          'distinct = (scenario, limit, path, outcome).',
+  'trusted_base': ['hand model tied by differential execution', 'counting global allocator (exploration, not proof) for everything outside the ledger'],
+  'assumptions': ['"a fixed linear function of L" is instantiated as 128*L + 2 MiB (any violation of it is reported; a smaller constant would alarm on the unchanged tree: minimal text chunks cost ~30 held bytes per accounted byte)',
+                  'memory held by caller-supplied buffers and by the input slice is excluded'],
+  'timeout_quick': 900,
+ },
 }
 
 NOT_APPLICABLE = {}
